@@ -338,7 +338,7 @@ Section RenameExec.
       + (* exec_sels *)
         intros objty ov sels path. rewrite !exec_sels_S.
         rewrite flatten_rename.
-        destruct (flatten S frags vars (Datatypes.S f) objty sels) as [fl | e]; simpl; [| reflexivity].
+        destruct (flatten S frags vars (Datatypes.S f) objty sels) as [fl | e]; unfold flat_map_R; [| reflexivity].
         rewrite map_length, group_rename.
         apply go_groups_rename. intros k s subs p. apply IHf.
       + (* exec_field *)
